@@ -83,6 +83,13 @@ def extract():
                 names=amap(U.NAME_TO_UNIT, "NAME_TO_UNIT"), symbols=amap(U.SYMBOL_TO_UNIT, "SYMBOL_TO_UNIT"))
 
 
+def rnest(chunks):
+    """c0 ++ (c1 ++ (c2 ++ …)): right-nested so that the kernel walks each element through one append only"""
+    if not chunks:
+        return "[]"
+    return " ++ (".join(chunks) + ")" * (len(chunks) - 1)
+
+
 def gen_units():
     T = extract()
     kind = {"int": ".int", "frac": ".frac", "float": ".float"}
@@ -121,7 +128,7 @@ def gen_units():
         L.append("def unitsChunk%d : List UnitRec := %s" % (c // CHUNK, llist("u%d" % i for i in range(c, min(n, c + CHUNK)))))
         chunks.append("unitsChunk%d" % (c // CHUNK))
     L.append("/-- `ka.units.UNITS`, in registration order -/")
-    L.append("def units : List UnitRec := " + (" ++ ".join(chunks) if chunks else "[]"))
+    L.append("def units : List UnitRec := " + rnest(chunks))
     L.append("def numUnits : Nat := %d" % n)
     L.append("")
     for what, key in (("names", "names"), ("symbols", "symbols")):
@@ -132,13 +139,41 @@ def gen_units():
                 what, c // CHUNK, ",\n  ".join("(%s, %d)" % (codepoints(k), v) for k, v in m[c:c + CHUNK])))
             chunks.append("%sChunk%d" % (what, c // CHUNK))
         L.append("/-- `ka.units.%s` as key ↦ index into `units` (dict order) -/" % ("NAME_TO_UNIT" if what == "names" else "SYMBOL_TO_UNIT"))
-        L.append("def %s : List (List Nat × Nat) := %s" % (what, " ++ ".join(chunks) if chunks else "[]"))
+        L.append("def %s : List (List Nat × Nat) := %s" % (what, rnest(chunks)))
         L.append("def %sS : List String := %s" % (what, llist(lstr(k) for k, _ in m)))
         L.append("")
     L.append("/-- the unit registry of the current source tree -/")
     L.append("def table : UnitTable := { baseUnits := baseUnits, baseUnitsS := baseUnitsS, prefixes := prefixes, units := units, names := names, symbols := symbols }")
     L.append("end KaVerif.Gen.Units\n")
     write_if_changed("Units", "\n".join(L))
+    # ---- complete-table obligation "every unit is reachable under its three spellings", one kernel
+    #      `decide` per chunk of UNITS (parallel files; a monolithic one takes > 80 s)
+    nch = (n + CHUNK - 1) // CHUNK
+    for k in range(nch):
+        R = [HEADER, "import KaVerif.Gen.Units\nimport KaVerif.Lemmas.UnitsChecks\nnamespace KaVerif.Gen.Units\nopen KaVerif.Units\n",
+             "set_option maxRecDepth 100000 in",
+             "/-- units %d..%d are found under their symbol, singular and plural name, unprefixed -/" % (k * CHUNK, min(n, (k + 1) * CHUNK) - 1),
+             "theorem reach%d : reachableFrom table %d unitsChunk%d = true := by decide +kernel" % (k, k * CHUNK, k),
+             "theorem chunkLen%d : unitsChunk%d.length = %d := by decide" % (k, k, min(n, (k + 1) * CHUNK) - k * CHUNK),
+             "end KaVerif.Gen.Units\n"]
+        write_if_changed("UnitsReach%d" % k, "\n".join(R))
+    A = [HEADER] + ["import KaVerif.Gen.UnitsReach%d" % k for k in range(nch)]
+    A.append("import KaVerif.Gen.Units\nimport KaVerif.Lemmas.UnitsChecks\nnamespace KaVerif.Gen.Units\nopen KaVerif.Units\n")
+    A.append("/-- every entry of `UNITS` is found under its symbol, its singular and its plural name, unprefixed -/")
+    if nch == 0:
+        A.append("theorem reachAll : reachableFrom table 0 units = true := rfl")
+    else:
+        term = "reach%d" % (nch - 1)
+        for k in range(nch - 2, -1, -1):
+            term = "reachableFrom_append table %d _ _ %d reach%d chunkLen%d (%s)" % (k * CHUNK, CHUNK, k, k, term)
+        A.append("theorem reachAll : reachableFrom table 0 units = true :=\n  " + term)
+    A.append("end KaVerif.Gen.Units\n")
+    write_if_changed("UnitsReachAll", "\n".join(A))
+    # remove chunk files of an earlier, longer table
+    k = nch
+    while os.path.exists(os.path.join(GEN, "UnitsReach%d.lean" % k)):
+        os.remove(os.path.join(GEN, "UnitsReach%d.lean" % k))
+        k += 1
     p = os.path.join(GEN, "units.json")
     txt = json.dumps(T, indent=0, sort_keys=True, ensure_ascii=False)
     if not os.path.exists(p) or open(p, encoding="utf-8").read() != txt:
